@@ -11,8 +11,9 @@ package main
 //     arguments, map/set iteration, printing, method results): compiled and evaluated 8x
 //     in-process and in 4 fresh child processes (64/16 thorough); MarshalCode bytes, result,
 //     error text and stdout must be identical.
-//  C. site probes against the Lean site-class models: SortedKeys / set order / VirtualOS.Environ /
-//     first-failure loops (function defaults, conversions) / applyOverrides / MockFS.ReadDir.
+//  C. site probes against the Lean site-class models: SortedKeys / set order / VirtualOS.Environ (sorted
+//     since its repair) / first-failure loops (function defaults, conversions) / applyOverrides /
+//     MockFS.ReadDir (sorted by filename since its repair).
 //  C2/C3. sets of every hashable type (floats, NaN, bytes, ...) against the model's order over FULL hash keys;
 //     sorted(set|map, cmp) with ties against the model's stable sort of the ordered listing.
 //  D. configuration probes (denylist, global names, shuffled option order), law-based; D2: module globals
@@ -48,10 +49,8 @@ import (
 const (
 	c05_fMapLit    = "C05-map-literal-order"
 	c05_fDefaults  = "C05-func-defaults-error-order"
-	c05_fEnviron   = "C05-virtualos-environ-order"
 	c05_fConvert   = "C05-conversion-error-order"
 	c05_fOverrides = "C05-overrides-abort-order"
-	c05_fMockFS    = "C05-mockfs-readdir-order"
 	c05_fSetNaN    = "C05-set-nan-order"
 )
 
@@ -1221,66 +1220,100 @@ func c05_permTo(base, observed []string) []int {
 	return p
 }
 
+// c05_randPerm returns a random permutation of 0..n-1.
+func c05_randPerm(r *RNG, n int) []int {
+	p := make([]int, n)
+	for i := range p {
+		p[i] = i
+	}
+	for i := n - 1; i > 0; i-- {
+		j := r.Intn(i + 1)
+		p[i], p[j] = p[j], p[i]
+	}
+	return p
+}
+
+// c05SiteEnviron: VirtualOS.Environ (repaired in /repo: the KEY=value lines are sorted).  The
+// model's listing (`environ`, the same for every visiting order: asked under three of them) must
+// be what os.environ() and VirtualOS.Environ() return, in every evaluation.  Names and values
+// are chosen so that the order of the lines differs from the order of insertion, from the order
+// of the keys (V1 / V10: '=' sorts after '0') and from case-insensitive order.
 func c05SiteEnviron(e *Env, n, reps int) {
 	rng := e.Rng.Fork()
+	names := []string{"V1", "V10", "V2", "B", "a", "A", "A.B", "A_B", "Z9", "é", "HOME", "PATH"}
 	for i := 0; i < n; i++ {
 		r := rng.Fork()
-		k := r.Intn(6)
+		k := r.Intn(7)
+		if i == 0 {
+			k = 3
+		}
 		env := map[string]string{}
-		var base []string
-		for j := 0; j < k; j++ {
-			name := fmt.Sprintf("V%d", j)
-			val := Pick(r, []string{"1", "x", "", "a b"})
+		var base, fields []string
+		for _, j := range c05_randPerm(r, len(names))[:k] {
+			name := names[j]
+			val := Pick(r, []string{"1", "x", "", "a b", "=", "/usr/bin:/bin"})
 			env[name] = val
 			base = append(base, name+"="+val)
+			fields = append(fields, c05_hexField(name)+":"+c05_hexField(val))
 		}
 		caseKey := "VirtualOS env=" + strings.Join(base, ";") + " script: os.environ()"
 		e.R.Case(caseKey, k >= 2)
 		e.R.H("site_environ_vars", strconv.Itoa(k))
+		field := "-"
+		if len(fields) > 0 {
+			field = strings.Join(fields, ",")
+		}
+		// the model under three visiting orders: one listing
+		want := e.O.Ask("C05", "environ", "-", field)
+		for t := 0; t < 2; t++ {
+			if w := e.O.Ask("C05", "environ", c05_permField(c05_randPerm(r, k)), field); w != want {
+				e.R.Mismatch(caseKey, w, want, "model: environ under two visiting orders")
+			}
+		}
 		seen := map[string]bool{}
-		agree := true
 		for rep := 0; rep < reps; rep++ {
 			vos := ros.NewVirtualOS(context.Background(), ros.WithEnvironment(env))
 			res, err := risor.Eval(context.Background(), "os.environ()", risor.WithOS(vos))
 			if err != nil {
 				e.R.Mismatch(caseKey, err.Error(), "a list", "os.environ() failed")
-				agree = false
 				break
 			}
 			var got []string
 			for _, o := range res.(*object.List).Value() {
 				got = append(got, o.(*object.String).Value())
 			}
-			p := c05_permTo(base, got)
-			if p == nil || len(p) != len(base) {
-				e.R.Mismatch(caseKey, strings.Join(got, ";"), "a permutation of the environment", "os.environ()")
-				agree = false
-				break
-			}
-			field := "-"
-			if len(base) > 0 {
-				field = strings.Join(base, ",")
-			}
-			want := e.O.Ask("C05", "visit", c05_permField(p), field)
-			g := "-"
-			if len(got) > 0 {
-				g = strings.Join(got, ",")
-			}
-			if want != g {
-				e.R.Mismatch(caseKey, g, want, "VirtualOS.Environ against inVisitingOrder")
-				agree = false
-				break
+			g := c05_hexList(got)
+			if d := c05_hexList(vos.Environ()); d != g {
+				e.R.Mismatch(caseKey, c05_unhexList(d), c05_unhexList(g), "VirtualOS.Environ() called directly against os.environ() on the same OS")
 			}
 			seen[g] = true
+			if g != want {
+				e.R.Mismatch(caseKey, strings.Join(got, ";"), c05_unhexList(want), "VirtualOS.Environ against the model (environ: collected, then sorted)")
+				if len(seen) > 1 {
+					break
+				}
+			}
 		}
 		if len(seen) > 1 {
-			finding := ""
-			if k >= 2 && agree {
-				finding = c05_fEnviron
+			var orders []string
+			for g := range seen {
+				orders = append(orders, c05_unhexList(g))
 			}
-			e.R.Spec(caseKey, fmt.Sprintf("os.environ() returned %d different orders in %d evaluations", len(seen), reps), finding)
+			sort.Strings(orders)
+			e.R.Spec(caseKey, fmt.Sprintf("os.environ() returned %d different orders in %d evaluations: %s", len(seen), reps, strings.Join(orders, " | ")), "")
 		}
 	}
+}
+
+func c05_unhexList(f string) string {
+	if f == "-" {
+		return ""
+	}
+	var out []string
+	for _, h := range strings.Split(f, ",") {
+		out = append(out, UnHex(h))
+	}
+	return strings.Join(out, ";")
 }
 
 type c05S struct{}
@@ -1531,59 +1564,120 @@ func c05SiteOverrides(e *Env, n, reps int) {
 	}
 }
 
-func c05SiteMockFS(e *Env, reps int) {
-	for _, k := range []int{0, 1, 2, 3, 5} {
+// c05SiteMockFS: MockFS.ReadDir (repaired in /repo: sorted by filename, the path breaks ties).
+// A mock filesystem with files in /d and /e (filenames repeat across the two), a sub-directory
+// and files created in random order is listed through ReadDir("/d") and ReadDir("/") (which
+// includes every descendant, so filenames repeat); the entries returned — identified by
+// filename, directory flag and size — must be the model's listing (`readDir`, the same for
+// every visiting order: asked under three of them) in every call.
+func c05SiteMockFS(e *Env, n, reps int) {
+	rng := e.Rng.Fork()
+	pool := []string{"f1.txt", "f10.txt", "f2.txt", "B", "a", "Z.md", "_x", "a.b", "a-b", "é"}
+	type ent struct {
+		path, name string
+		size       int
+		dir        bool
+	}
+	for i := 0; i < n; i++ {
+		r := rng.Fork()
 		fs := ros.NewMockFS()
+		ents := []ent{{"/", "/", 0, true}, {"/d", "d", 0, true}, {"/e", "e", 0, true}}
+		fs.Mkdir("/", 0o755)
 		fs.MkdirAll("/d", 0o755)
-		var base []string
+		fs.MkdirAll("/e", 0o755)
+		if r.Chance(50) {
+			fs.MkdirAll("/d/sub", 0o755)
+			ents = append(ents, ent{"/d/sub", "sub", 0, true})
+		}
+		k := r.Intn(8)
+		if i == 0 {
+			k = 3
+		}
+		seenPath := map[string]bool{}
+		var created []string
 		for j := 0; j < k; j++ {
-			name := fmt.Sprintf("/d/f%d.txt", j)
-			fs.WriteFile(name, []byte("x"), 0o644)
-			base = append(base, fmt.Sprintf("f%d.txt", j))
+			dir := Pick(r, []string{"/d", "/d", "/e"})
+			name := Pick(r, pool)
+			if i == 0 {
+				dir, name = "/d", pool[2-j] // f2.txt, f10.txt, f1.txt: created in descending order
+			}
+			path := dir + "/" + name
+			if seenPath[path] {
+				continue
+			}
+			seenPath[path] = true
+			size := len(ents) + 1
+			fs.WriteFile(path, bytes.Repeat([]byte("x"), size), 0o644)
+			ents = append(ents, ent{path, name, size, false})
+			created = append(created, path)
 		}
-		caseKey := fmt.Sprintf("MockFS with %d files in /d: ReadDir(\"/d\")", k)
-		e.R.Case(caseKey, k >= 2)
-		seen := map[string]bool{}
-		agree := true
-		for rep := 0; rep < reps; rep++ {
-			ents, err := fs.ReadDir("/d")
-			if err != nil {
-				e.R.Note("MockFS.ReadDir: %v", err)
-				agree = false
-				break
+		for _, listed := range []string{"/d", "/"} {
+			var members []int
+			for idx, en := range ents {
+				parent := "/"
+				if j := strings.LastIndex(en.path, "/"); j > 0 {
+					parent = en.path[:j]
+				}
+				if en.path != "/" && parent == listed || listed == "/" {
+					members = append(members, idx)
+				}
 			}
-			var got []string
-			for _, en := range ents {
-				got = append(got, en.Name())
+			var fields []string
+			ident := map[string]int{}
+			for pos, idx := range members {
+				en := ents[idx]
+				fields = append(fields, c05_hexField(en.path)+":"+c05_hexField(en.name))
+				ident[fmt.Sprintf("%s|%v|%d", en.name, en.dir, en.size)] = pos
 			}
-			p := c05_permTo(base, got)
-			if p == nil || len(p) != len(base) {
-				agree = false
-				e.R.Note("MockFS.ReadDir(\"/\") with files %v returned %v (not a permutation; not compared)", base, got)
-				break
-			}
+			caseKey := fmt.Sprintf("MockFS files created in this order: %s: ReadDir(%q)", strings.Join(created, ", "), listed)
+			e.R.Case(caseKey, len(members) >= 2)
+			e.R.H("site_mockfs_entries", strconv.Itoa(len(members)))
 			field := "-"
-			if len(base) > 0 {
-				field = strings.Join(base, ",")
+			if len(fields) > 0 {
+				field = strings.Join(fields, ",")
 			}
-			want := e.O.Ask("C05", "visit", c05_permField(p), field)
-			g := "-"
-			if len(got) > 0 {
-				g = strings.Join(got, ",")
+			want := e.O.Ask("C05", "readDir", "-", field)
+			for t := 0; t < 2; t++ {
+				if w := e.O.Ask("C05", "readDir", c05_permField(c05_randPerm(r, len(members))), field); w != want {
+					e.R.Mismatch(caseKey, w, want, "model: readDir under two visiting orders")
+				}
 			}
-			if g != want {
-				e.R.Mismatch(caseKey, g, want, "MockFS.ReadDir against inVisitingOrder")
-				agree = false
-				break
+			seen := map[string]bool{}
+			for rep := 0; rep < reps; rep++ {
+				got, err := fs.ReadDir(listed)
+				if err != nil {
+					e.R.Mismatch(caseKey, err.Error(), "a listing", "MockFS.ReadDir failed")
+					break
+				}
+				var pos, shown []string
+				for _, en := range got {
+					size := 0
+					if info, err := en.Info(); err == nil && !en.IsDir() {
+						size = int(info.Size())
+					}
+					p, ok := ident[fmt.Sprintf("%s|%v|%d", en.Name(), en.IsDir(), size)]
+					if !ok {
+						p = -1
+					}
+					pos = append(pos, strconv.Itoa(p))
+					shown = append(shown, en.Name())
+				}
+				g := "-"
+				if len(pos) > 0 {
+					g = strings.Join(pos, ".")
+				}
+				first := !seen[g]
+				seen[g] = true
+				if g != want && first {
+					e.R.Mismatch(caseKey, g+" ("+strings.Join(shown, ", ")+")", want, "MockFS.ReadDir against the model (readDir: positions of the entries, sorted by filename then path)")
+				}
+				if len(seen) > 1 {
+					break
+				}
 			}
-			seen[g] = true
-		}
-		if len(seen) > 1 {
-			finding := ""
-			if k >= 2 && agree {
-				finding = c05_fMockFS
+			if len(seen) > 1 {
+				e.R.Spec(caseKey, fmt.Sprintf("%d different entry orders in at most %d calls: %s", len(seen), reps, strings.Join(sortedKeys(seen), " | ")), "")
 			}
-			e.R.Spec(caseKey, fmt.Sprintf("%d different entry orders in %d calls", len(seen), reps), finding)
 		}
 	}
 }
@@ -2215,21 +2309,12 @@ func c05BuiltinArgs(e *Env, reps int) {
 				e.R.H("callable_args_outcome", cls)
 				if varied != "" {
 					e.R.H("callable_args_varied", callee)
-					finding := ""
-					if callee == "error" && c == "co" && first.Value == "" && first.Stdout == "" && c05_ptrPattern.MatchString(first.Err) {
-						finding = c05_fErrFmt
-					}
-					e.R.Spec(src, "evaluations of the same script differ: "+varied, finding)
+					e.R.Spec(src, "evaluations of the same script differ: "+varied, "")
 				}
 				for _, t := range []string{first.Value, first.Err, first.Stdout} {
 					if m := c05_ptrPattern.FindString(t); m != "" {
 						e.R.H("callable_args_pointer_text", callee)
-						finding := ""
-						if callee == "error" && c == "co" && first.Value == "" && first.Stdout == "" {
-							// error(fmt, …, co): Interface() of the channels and of the builtin inside co (known finding)
-							finding = c05_fErrFmt
-						}
-						e.R.Spec(src, fmt.Sprintf("the result, error text or stdout contains a Go pointer (%s): value=%q err=%q stdout=%q", m, first.Value, first.Err, first.Stdout), finding)
+						e.R.Spec(src, fmt.Sprintf("the result, error text or stdout contains a Go pointer (%s): value=%q err=%q stdout=%q", m, first.Value, first.Err, first.Stdout), "")
 						break
 					}
 				}
@@ -2439,8 +2524,9 @@ func c05_runC05(e *Env) {
 	e.R.Rule = "A: fragment programs (literals, globals, +, list/map/set literals with duplicate keys and print() side effects inside entries, " +
 		"index, print) run on the real compiler/VM and on the Lean Impl model under every adversary annotation; B: programs from the shared " +
 		"generator behind a prelude of map/set construction, iteration, printing, method results, default arguments, compiled and evaluated " +
-		"repeatedly in-process and in fresh child processes; C: site probes (sorted keys/set items, VirtualOS.Environ, first-failure loops, " +
-		"applyOverrides, MockFS.ReadDir) against the Lean site-class models; C2: sets of 2-42 hashable values of every type (int, float incl. " +
+		"repeatedly in-process and in fresh child processes; C: site probes (sorted keys/set items, first-failure loops, applyOverrides; VirtualOS.Environ with 0-6 variables whose " +
+		"line order differs from insertion and key order, and MockFS.ReadDir of a directory and of / with files created in random order and filenames " +
+		"repeated across directories, both against the model's sorted listing under three visiting orders and repeated) against the Lean site-class models; C2: sets of 2-42 hashable values of every type (int, float incl. " +
 		"+-Inf/denormals/NaN, string, bool, nil, byte, byte_slice; a third of them floats only) read through SortedItems/Inspect/Iter/List against " +
 		"sortedItems/iterItems over full hash keys; C3: sorted(set|map, cmp) scripts whose cmp produces ties (by type, by len, by integer part, " +
 		"constant false) and sorted(set) over ints and equal floats against sortedBuiltin; E: a 6-entry map, a mixed set and a float set at every " +
@@ -2471,7 +2557,7 @@ func c05_runC05(e *Env) {
 	c05SiteEnviron(e, nSite/3, reps*2)
 	c05SiteFirstFailure(e, nSite/3, reps*2)
 	c05SiteOverrides(e, nSite/5, reps*2)
-	c05SiteMockFS(e, reps*4)
+	c05SiteMockFS(e, nSite/5, reps*4)
 	c05Config(e, nSite/10, reps)
 	c05BuiltinArgs(e, reps)
 	c05Fragments(e, nFrag, reps)
